@@ -134,6 +134,13 @@ class Stuck(Exception):
     pass
 
 
+class BaseFault(BaseException):
+    """a handler may fail with something that is not an Exception subclass"""
+
+
+FAULTS = (RuntimeError, KeyError, ZeroDivisionError, BaseFault)
+
+
 class SimCtl:
     def __init__(self, conc: str, end_t: int, warm_t: int, strategy: str = "pause",
                  prog=None, init_ops=None, prog_gen=None, model_factory=None):
@@ -158,6 +165,7 @@ class SimCtl:
         self.executed = []
         self.alt = 0
         self.errors = []
+        self.probe_starting = False
         self.extra_on_handler = None
         self.obs = []
 
@@ -192,6 +200,25 @@ class SimCtl:
                     e = sim.schedule_event_rel(c.nan(), self.model, "h", p, k=rank)
                 elif k == "str_abs":
                     e = sim.schedule_event_abs("x", self.model, "h", p, k=rank)
+                elif k == "neg_tiny":     # a negative delay so small that clock + delay == clock
+                    tiny = -1 if c.name == "int" else (-5e-324 if c.name == "float" else Duration(-5e-324, "s"))
+                    e = sim.schedule_event_rel(tiny, self.model, "h", p, k=rank)
+                elif k == "strat":
+                    self.strategy = "pause" if a == 1 else ("continue", "warn_continue")[rank % 2]
+                    sim.set_error_strategy(STRATEGY[self.strategy])
+                    res.append(0); info.append("strat")
+                    continue
+                elif k == "reinit":       # initialize while running: must be refused and change nothing
+                    if not sim.is_starting_or_running():
+                        res.append(0); info.append("skipped: not running")
+                        continue
+                    try:
+                        sim.initialize(self.model, self.sim.replication)
+                    except DSOLError:
+                        res.append(0); info.append("DSOLError")
+                        continue
+                    res.append(BAD); info.append("initialize accepted while running")
+                    continue
                 else:
                     raise ValueError(k)
                 self.next_rank = rank
@@ -225,7 +252,7 @@ class SimCtl:
         else:
             self._maybe_pause()
         if h["raise"]:
-            raise RuntimeError(f"injected fault in handler {k}")
+            raise FAULTS[k % len(FAULTS)](f"injected fault in handler {k}")
 
     def _maybe_pause(self):
         self.seg_count += 1
@@ -242,6 +269,15 @@ class SimCtl:
     def on_notify(self, event):
         ty = notif_types().get(event.event_type)
         if ty is None:
+            if self.probe_starting and event.event_type is SimulatorInterface.STARTING_EVENT:
+                # initialize() issued in the STARTING window must be refused and change nothing
+                try:
+                    self.sim.initialize(self.model, self.sim.replication)
+                    self.errors.append("reinit_accepted: initialize() accepted while the simulator is STARTING")
+                except DSOLError:
+                    pass
+                except Exception as ex:
+                    self.errors.append(f"reinit_accepted: initialize() while STARTING raised {type(ex).__name__}")
             return
         ts = self.conc.back(event.timestamp)
         if ty == "WARMUP":
@@ -259,6 +295,8 @@ class SimCtl:
     def subscribe(self):
         for et in notif_types():
             self.sim.add_listener(et, self.listener)
+        if self.probe_starting:
+            self.sim.add_listener(SimulatorInterface.STARTING_EVENT, self.listener)
 
     def worker(self):
         return getattr(self.sim, "_Simulator__worker", None)
